@@ -377,3 +377,54 @@ mod tests {
         });
     }
 }
+
+/// Kani proof harnesses (all `u32` counter values, both allocation kinds, loop-free: complete proofs).
+#[cfg(feature = "verif_kani")]
+mod verif_kani {
+    use super::*;
+
+    /// An array with `n` iterators already active (statically allocated, i.e. capacity 0, arrays never count).
+    fn any_array<'v>() -> (Array<'v>, u32) {
+        let (len, cap, n): (u32, u32, u32) = (kani::any(), kani::any(), kani::any());
+        kani::assume(len <= cap);
+        let a = unsafe { Array::new(len, cap) };
+        let n = if cap == 0 { 0 } else { n };
+        unsafe { *a.iter_count.get() = n };
+        (a, n)
+    }
+
+    /// Starting an iteration locks a heap array, ending it restores the counter exactly:
+    /// `inc_iter_count; dec_iter_count` is the identity, and the array is locked in between.
+    #[kani::proof]
+    fn c12_array_iter_lock_paired() {
+        let (a, n) = any_array();
+        kani::assume(n < u32::MAX);
+        a.inc_iter_count();
+        if a.capacity() != 0 {
+            assert!(a.iter_count_is_non_zero());
+            assert!(unsafe { *a.iter_count.get() } == n + 1);
+        } else {
+            // the shared empty array is never written (it cannot be mutated in place either)
+            assert!(!a.iter_count_is_non_zero());
+        }
+        a.dec_iter_count();
+        assert!(unsafe { *a.iter_count.get() } == n);
+        assert!(a.iter_count_is_non_zero() == (n != 0));
+        kani::cover!(a.capacity() == 0);
+        kani::cover!(a.capacity() != 0 && n == 0);
+    }
+
+    /// Nested iteration over the same array: it stays locked until the last iterator is released.
+    #[kani::proof]
+    fn c12_array_iter_lock_nested() {
+        let (a, n) = any_array();
+        kani::assume(a.capacity() != 0 && n == 0);
+        a.inc_iter_count();
+        a.inc_iter_count();
+        a.dec_iter_count();
+        assert!(a.iter_count_is_non_zero());
+        a.dec_iter_count();
+        assert!(!a.iter_count_is_non_zero());
+        kani::cover!(true);
+    }
+}
